@@ -28,7 +28,7 @@ import (
 // c14Op is one operation of the table alphabet. It is pointer-free on purpose (the BFS frontier
 // holds millions of them): the source is an index, see c14SrcName.
 type c14Op struct {
-	Kind  uint8  `json:"k"` // c14Chunk | c14Bad | c14Short | c14Tick
+	Kind  uint8  `json:"k"` // c14Chunk | c14Bad | c14Short | c14Tick | c14ReadErr
 	S     uint16 `json:"s,omitempty"`
 	ID    uint8  `json:"id,omitempty"`
 	Idx   uint8  `json:"i,omitempty"`
@@ -41,6 +41,12 @@ const (
 	c14Bad
 	c14Short
 	c14Tick
+	// c14ReadErr: a recoverable read error followed by continued use of the conn - the read
+	// deadline (set through the wrapper) has passed while nothing is queued, ReadFrom times out,
+	// the deadline is cleared again. QUIC's transport does this all the time; the table, the caps
+	// and the TTL sweep must be what they were. Added after the independently seeded change C14-11
+	// (any error of the inner ReadFrom stopped the gc goroutine, so nothing was forgotten any more).
+	c14ReadErr
 )
 
 var c14SrcNames = func() []string {
@@ -74,6 +80,8 @@ func (o c14Op) String() string {
 		return fmt.Sprintf("bad%d", o.Bad)
 	case c14Short:
 		return "short"
+	case c14ReadErr:
+		return "timeout"
 	}
 	return "tick"
 }
@@ -100,17 +108,18 @@ type c14TableCfg struct {
 	DepthQ   int      `json:"depth_quick"`
 	DepthT   int      `json:"depth_thorough"`
 	BadKinds []int    `json:"bad"`
+	ReadErr  bool     `json:"read_timeout,omitempty"` // alphabet includes c14ReadErr (the configurations whose sweep is the real gcLoop)
 }
 
 // Depth bounds: 16 is "until the state space closes" (the scaled table has finitely many states;
 // BFS stops when a level adds no new state) or the deadline, whichever comes first.
 var c14TableCfgs = []c14TableCfg{
 	{Name: "full-direct", Srcs: []uint16{0, 1}, IDs: []uint8{1, 2, 3}, Totals: []uint8{2, 3}, Tick: "direct", DepthQ: 5, DepthT: 16, BadKinds: []int{3}},
-	{Name: "full-loop", Srcs: []uint16{0, 1}, IDs: []uint8{1, 2, 3}, Totals: []uint8{2, 3}, Tick: "loop", DepthQ: 5, DepthT: 16, BadKinds: []int{3}},
+	{Name: "full-loop", Srcs: []uint16{0, 1}, IDs: []uint8{1, 2, 3}, Totals: []uint8{2, 3}, Tick: "loop", DepthQ: 5, DepthT: 16, BadKinds: []int{3}, ReadErr: true},
 	{Name: "ids12-direct", Srcs: []uint16{0, 1}, IDs: []uint8{1, 2}, Totals: []uint8{2, 3}, Tick: "direct", DepthQ: 6, DepthT: 16, BadKinds: []int{4}},
 	{Name: "total3-direct", Srcs: []uint16{0, 1}, IDs: []uint8{1, 2}, Totals: []uint8{3}, Tick: "direct", DepthQ: 16, DepthT: 16, BadKinds: []int{0}},
 	{Name: "total2-direct", Srcs: []uint16{0, 1}, IDs: []uint8{1, 2, 3}, Totals: []uint8{2}, Tick: "direct", DepthQ: 16, DepthT: 16, BadKinds: []int{0, 1, 2, 3, 4}},
-	{Name: "total2-loop", Srcs: []uint16{0, 1}, IDs: []uint8{1, 2, 3}, Totals: []uint8{2}, Tick: "loop", DepthQ: 16, DepthT: 16, BadKinds: []int{3}},
+	{Name: "total2-loop", Srcs: []uint16{0, 1}, IDs: []uint8{1, 2, 3}, Totals: []uint8{2}, Tick: "loop", DepthQ: 16, DepthT: 16, BadKinds: []int{3}, ReadErr: true},
 }
 
 func (c *c14TableCfg) ops() []c14Op {
@@ -128,6 +137,9 @@ func (c *c14TableCfg) ops() []c14Op {
 		ops = append(ops, c14Op{Kind: c14Bad, Bad: uint8(b)})
 	}
 	ops = append(ops, c14Op{Kind: c14Short}, c14Op{Kind: c14Tick})
+	if c.ReadErr {
+		ops = append(ops, c14Op{Kind: c14ReadErr})
+	}
 	return ops
 }
 
@@ -247,6 +259,15 @@ func (w *c14World) step(op c14Op) string {
 			w.e.Sleep(1) // lets the real gcLoop take the tick that is due now
 		}
 		now = w.e.Now()
+	case c14ReadErr:
+		// the inbox is empty (every step drains it), so a read whose deadline is "now" times out;
+		// the drain below then shows that the conn is still in use and nothing changed
+		w.g.SetReadDeadline(vtime.Now())
+		n, addr, err := w.g.ReadFrom(w.buf)
+		w.g.SetReadDeadline(time.Time{})
+		if err == nil {
+			return fmt.Sprintf("ReadFrom returned a packet (%d bytes from %v) although nothing arrived before the read deadline", n, addr)
+		}
 	}
 	if op.Kind != c14Tick {
 		got, cl := c14Drain(w.g, w.in, []byte{0x00}, w.buf)
@@ -362,6 +383,11 @@ func (w *c14World) compare(op c14Op, now int64, evictCands []c14RefKey, created 
 // time to its deadline, plus the perSource map. Two states with equal keys behave identically
 // afterwards: acceptChunk/gcExpired/evictOldest read nothing else (msgID counter, readBuf and the
 // ticker phase - always aligned to the tick operations - are not part of the receive path state).
+// The census of the conn's own background threads (the gc loop: one, blocked on its ticker) is
+// part of the key as well: a state whose sweeper has gone has other futures than one with the
+// same table and a live sweeper, and must not be merged into it (added after the independently
+// seeded change C14-11, any error of the inner ReadFrom stopped the gc goroutine: the state after
+// the timed-out read had the key of the state before it and was never expanded).
 func (w *c14World) key() (string, string) {
 	now := w.e.Now()
 	var parts []string
@@ -410,7 +436,7 @@ func (w *c14World) key() (string, string) {
 		rp = append(rp, string(b))
 	}
 	sort.Strings(rp)
-	return strings.Join(parts, " ") + " | " + strings.Join(ps, ","), strings.Join(rp, " ")
+	return strings.Join(parts, " ") + " | " + strings.Join(ps, ",") + " | bg=" + strconv.Itoa(len(w.e.Alive())), strings.Join(rp, " ")
 }
 
 // c14RunHistory executes a whole history on a fresh real object inside one execution.
@@ -509,7 +535,11 @@ func c14TableEnumerate(sh *evidence.Shard) {
 		for _, o := range ops {
 			names = append(names, o.String())
 		}
-		p.Alphabet = map[string]any{"operations": names, "tick": cfg.Tick + " (virtual +4s = TTL/2)", "caps(scaled by overlay)": map[string]int{"per_source": geckoMaxPerSource, "overall": geckoMaxReassembly}, "ttl": geckoReassemblyTTL.String()}
+		alphabet := map[string]any{"operations": names, "tick": cfg.Tick + " (virtual +4s = TTL/2)", "caps(scaled by overlay)": map[string]int{"per_source": geckoMaxPerSource, "overall": geckoMaxReassembly}, "ttl": geckoReassemblyTTL.String()}
+		if cfg.ReadErr {
+			alphabet["timeout"] = "recoverable read error: read deadline passed on an empty socket, ReadFrom fails, deadline cleared, conn used on"
+		}
+		p.Alphabet = alphabet
 		p.Bounds = map[string]any{"max_depth": depth}
 		res := xstate.BFS(xstate.Config[c14Op]{
 			Ops:      ops,
